@@ -362,6 +362,10 @@ func (ex *Exec) modItem(it string, env *Env) ([]modItem, error) {
 	if it == "*" || it == "everything" {
 		return []modItem{{comp: "*"}}, nil
 	}
+	if strings.HasPrefix(it, "allbut(") {
+		// everything except the components with the given name prefixes
+		return []modItem{{comp: "*-" + strings.TrimSuffix(strings.TrimPrefix(it, "allbut("), ")")}}, nil
+	}
 	if strings.HasPrefix(it, "comp(") {
 		name := strings.Trim(strings.TrimSuffix(strings.TrimPrefix(it, "comp("), ")"), `"`)
 		return []modItem{{comp: name}}, nil
@@ -370,7 +374,27 @@ func (ex *Exec) modItem(it string, env *Env) ([]modItem, error) {
 		return []modItem{{comp: "G:" + g.Name}}, nil
 	}
 	if it == "calls" {
-		return []modItem{{comp: "G:calls"}}, nil
+		var out []modItem
+		for _, k := range sortedKeys(ex.V.compSorts) {
+			if strings.HasPrefix(k, "G:calls:") {
+				out = append(out, modItem{comp: k})
+			}
+		}
+		return out, nil
+	}
+	if strings.HasPrefix(it, "calls(") && strings.HasSuffix(it, ")") {
+		e, err := parseSpecExpr(it[len("calls(") : len(it)-1])
+		if err != nil {
+			return nil, err
+		}
+		v, err := env.trans(e)
+		if err != nil {
+			return nil, err
+		}
+		ref := v.t
+		comp := callsComp(v.typ)
+		ex.regComp(comp, arraySort(SInt, SInt))
+		return []modItem{{comp: comp, ref: &ref}}, nil
 	}
 	contents := false
 	text := it
@@ -474,6 +498,17 @@ func (ex *Exec) modItem(it string, env *Env) ([]modItem, error) {
 	return out, nil
 }
 
+// callsComp: ghost call counters are kept per function signature (values of different signatures are distinct).
+func callsComp(t types.Type) string {
+	if t == nil {
+		return "G:calls:?"
+	}
+	if sig, ok := t.Underlying().(*types.Signature); ok {
+		return "G:calls:" + typeStr(stripRecv(sig))
+	}
+	return "G:calls:?"
+}
+
 func fieldPath(t types.Type, name string) (string, types.Type) {
 	st, ok := t.Underlying().(*types.Struct)
 	if !ok {
@@ -499,6 +534,24 @@ func (ex *Exec) applyModifies(st *State, c *Contract, env *Env) {
 	for _, it := range items {
 		if it.comp == "*" {
 			ex.havocSet(st, map[string]bool{"*": true})
+			continue
+		}
+		if strings.HasPrefix(it.comp, "*-") {
+			pfx := strings.Split(strings.TrimPrefix(it.comp, "*-"), "|")
+			for _, k := range sortedKeys(ex.V.compSorts) {
+				if k == compAlloc || strings.HasPrefix(k, "LK:") || strings.HasPrefix(k, "LA:") || strings.HasPrefix(k, "G:") {
+					continue
+				}
+				skip := false
+				for _, p := range pfx {
+					if strings.HasPrefix(k, strings.TrimSpace(p)) {
+						skip = true
+					}
+				}
+				if !skip {
+					ex.havoc(st, k)
+				}
+			}
 			continue
 		}
 		sort, ok := ex.compSort(it.comp)
@@ -582,6 +635,24 @@ func (V *Verifier) verifyFunction(fn *ssa.Function, lockMode bool) *FnResult {
 			sa.Hits = 0
 		}
 	}
+	// gate ghosts: no permission is held at entry unless the contract requires it
+	for _, gn := range sortedKeys(V.specs.ghosts) {
+		g := V.specs.ghosts[gn]
+		if !g.Gate {
+			continue
+		}
+		mentioned := false
+		if c != nil {
+			for _, r := range c.Requires {
+				if containsIdent(r.Text, g.Name) {
+					mentioned = true
+				}
+			}
+		}
+		if !mentioned {
+			sc.assert(not(ex.get(entry, "G:"+g.Name, SBool)))
+		}
+	}
 	ex.runBody(f, entry, params)
 	if c != nil && f.exit.reach.S != "false" {
 		env := ex.frameEnv(f, f.exit, f.entry)
@@ -618,6 +689,27 @@ func (V *Verifier) verifyFunction(fn *ssa.Function, lockMode bool) *FnResult {
 
 func trimLabel2(l string) string { return l }
 
+func containsIdent(text, name string) bool {
+	i := 0
+	for {
+		j := strings.Index(text[i:], name)
+		if j < 0 {
+			return false
+		}
+		j += i
+		before := j == 0 || !isIdentChar(text[j-1])
+		after := j+len(name) >= len(text) || !isIdentChar(text[j+len(name)])
+		if before && after {
+			return true
+		}
+		i = j + len(name)
+	}
+}
+
+func isIdentChar(c byte) bool {
+	return c == '_' || c >= 'a' && c <= 'z' || c >= 'A' && c <= 'Z' || c >= '0' && c <= '9'
+}
+
 // lockBalance: every mutex is in the same state at exit as at entry unless the contract says otherwise (ensures over held()).
 func (ex *Exec) lockBalance(f *frame, c *Contract) {
 	if c != nil {
@@ -651,7 +743,7 @@ func (ex *Exec) frameObligations(f *frame, c *Contract) {
 	allowedWhole := map[string]bool{}
 	allowedRefs := map[string][]Term{}
 	for _, it := range items {
-		if it.comp == "*" {
+		if it.comp == "*" || strings.HasPrefix(it.comp, "*-") {
 			return
 		}
 		if it.ref == nil {
@@ -662,7 +754,7 @@ func (ex *Exec) frameObligations(f *frame, c *Contract) {
 	}
 	n0 := ex.sc.declare("pre:"+compAlloc, SInt)
 	for _, k := range sortedKeys(f.exit.heap) {
-		if k == compAlloc || k == "G:clock" || strings.HasPrefix(k, "LK:") || allowedWhole[k] {
+		if k == compAlloc || k == "G:clock" || strings.HasPrefix(k, "LK:") || strings.HasPrefix(k, "LA:") || allowedWhole[k] {
 			continue
 		}
 		sort := ex.compSorts(k)
@@ -949,17 +1041,24 @@ func (V *Verifier) contractWrites(ct *Contract, d map[string]bool) {
 	}
 }
 
-func (V *Verifier) externalWrites(g *ssa.Function, d map[string]bool) {
-	// shallow: memory directly reachable through pointer / slice / map parameters
-	sig := g.Signature
-	add := func(t types.Type) {
+// shallowWrites: memory directly reachable through a pointer / slice / map value of type t (one more level
+// for pointers to maps, slices and structs holding them, as decoders fill those in).
+func (V *Verifier) shallowWrites(t types.Type, d map[string]bool) {
+	var add func(t types.Type, depth int)
+	add = func(t types.Type, depth int) {
+		if depth > 2 {
+			return
+		}
 		switch u := t.Underlying().(type) {
 		case *types.Pointer:
 			if st, ok := u.Elem().Underlying().(*types.Struct); ok {
-				_ = st
 				d["F:"+namedKey(u.Elem())+".*"] = true
+				for i := 0; i < st.NumFields(); i++ {
+					add(st.Field(i).Type(), depth+1)
+				}
 			} else {
 				d[compCell(u.Elem())] = true
+				add(u.Elem(), depth+1)
 			}
 		case *types.Slice:
 			d[compElem(u.Elem())] = true
@@ -969,6 +1068,13 @@ func (V *Verifier) externalWrites(g *ssa.Function, d map[string]bool) {
 			d[compMapLen(u)] = true
 		}
 	}
+	add(t, 0)
+}
+
+func (V *Verifier) externalWrites(g *ssa.Function, d map[string]bool) {
+	// shallow: memory directly reachable through pointer / slice / map parameters
+	sig := g.Signature
+	add := func(t types.Type) { V.shallowWrites(t, d) }
 	if sig.Recv() != nil {
 		add(sig.Recv().Type())
 	}
@@ -1096,10 +1202,19 @@ func (V *Verifier) loopMods(fn *ssa.Function, li *loopInfo) []string {
 					case "(*sync.Mutex).Lock", "(*sync.RWMutex).Lock", "(*sync.Mutex).Unlock", "(*sync.RWMutex).Unlock", "(*sync.RWMutex).RLock", "(*sync.RWMutex).RUnlock":
 						d["LK:*"] = true
 						continue
+					case "time.Now", "time.Since":
+						d["G:clock"] = true
+						continue
 					}
 					if ct := V.contracts[funcName(callee)]; ct != nil && ct.HasMods {
 						d["?contract:"+ct.Key] = true
 						continue
+					} else if ct != nil {
+						for _, it := range ct.AlsoMods {
+							if g, ok := V.specs.ghosts[it]; ok {
+								d["G:"+g.Name] = true
+							}
+						}
 					}
 					for k := range V.modSet(callee) {
 						d[k] = true
@@ -1109,12 +1224,18 @@ func (V *Verifier) loopMods(fn *ssa.Function, li *loopInfo) []string {
 					if ct := V.contracts[key]; ct != nil && ct.HasMods {
 						d["?contract:"+ct.Key] = true
 						continue
+					} else if ct != nil {
+						for _, it := range ct.AlsoMods {
+							if g, ok := V.specs.ghosts[it]; ok {
+								d["G:"+g.Name] = true
+							}
+						}
 					}
 					for k := range V.invokeMods(cc) {
 						d[k] = true
 					}
 				} else {
-					d["G:calls"] = true
+					d[callsComp(cc.Value.Type())] = true
 					for k := range V.dynMods(cc.Signature()) {
 						d[k] = true
 					}
@@ -1134,10 +1255,17 @@ func (V *Verifier) expandMods(d map[string]bool) []string {
 			return []string{"*"}
 		case strings.HasPrefix(k, "?contract:"):
 			ct := V.contracts[strings.TrimPrefix(k, "?contract:")]
-			// conservative: component-level havoc of every component the clause can name
-			for _, it := range ct.Modifies {
-				if it == "*" || it == "everything" {
-					return []string{"*"}
+			// conservative: heap-wide havoc; ghost state only where the contract names it
+			for _, it := range append(append([]string{}, ct.Modifies...), ct.AlsoMods...) {
+				if g, ok := V.specs.ghosts[it]; ok {
+					out["G:"+g.Name] = true
+				}
+				if it == "calls" || strings.HasPrefix(it, "calls(") {
+					for c := range V.compSorts {
+						if strings.HasPrefix(c, "G:calls:") {
+							out[c] = true
+						}
+					}
 				}
 			}
 			out["?"+ct.Key] = true
@@ -1150,7 +1278,7 @@ func (V *Verifier) expandMods(d map[string]bool) []string {
 			}
 		case k == "LK:*":
 			for c := range V.compSorts {
-				if strings.HasPrefix(c, "LK:") {
+				if strings.HasPrefix(c, "LK:") || strings.HasPrefix(c, "LA:") {
 					out[c] = true
 				}
 			}
@@ -1159,12 +1287,25 @@ func (V *Verifier) expandMods(d map[string]bool) []string {
 		}
 	}
 	var res []string
+	star := false
 	for k := range out {
 		if strings.HasPrefix(k, "?") {
-			// a contracted callee with object-level modifies inside a loop: fall back to havoc of everything it could name
-			return []string{"*"}
+			// a contracted callee with object-level modifies inside a loop: fall back to havoc of the whole heap
+			star = true
+			continue
 		}
 		res = append(res, k)
+	}
+	if star {
+		for c := range V.compSorts {
+			if c == compAlloc || strings.HasPrefix(c, "LK:") || strings.HasPrefix(c, "LA:") || strings.HasPrefix(c, "G:") {
+				continue
+			}
+			if !out[c] {
+				res = append(res, c)
+			}
+		}
+		res = append(res, compAlloc)
 	}
 	sort.Strings(res)
 	return res
